@@ -2,6 +2,7 @@ package msgpack
 
 import (
 	"bytes"
+	"math"
 
 	"github.com/vmihailenco/msgpack/v5"
 	msgpackCodes "github.com/vmihailenco/msgpack/v5/msgpcode"
@@ -104,6 +105,9 @@ func unmarshalPrimitive(dec *msgpack.Decoder, ty cty.Type, path cty.Path) (cty.V
 			rv, err := dec.DecodeFloat64()
 			if err != nil {
 				return cty.DynamicVal, path.NewErrorf("number is required")
+			}
+			if math.IsNaN(rv) {
+				return cty.DynamicVal, path.NewErrorf("number is required (NaN is not a number)")
 			}
 			return cty.NumberFloatVal(rv), nil
 		default:
